@@ -82,7 +82,7 @@ def check_utmp(case, got, exp):
     return bad
 
 
-DIRS = {"/": "/", "/mnt/a b": "/mnt/a b", "/mnt/tab": "/mnt/t\tb"}
+DIRS = {"/": "/", "/mnt/a b": "/mnt/a b", "/mnt/tab": "/mnt/t\tb", "/mnt/bslash": "/mnt/back\\040slash"}
 
 
 def opts_of(kind):
